@@ -32,6 +32,7 @@ from typing import (TYPE_CHECKING, Any, ClassVar, Iterator, Mapping, Self,
                     Sequence, Set, SupportsIndex)
 
 from .. import errors
+from .. import _verif
 from ..errors import Emsg, check
 from ..tools import (EMPTY_SEQ, EMPTY_SET, abcs, closure, inflect, lazy, membr,
                      qsetf, wraps)
@@ -213,6 +214,8 @@ class Lexical:
         This method should generally not need to be called, as it is used to
         generate and cache the instance :attr:`hash` property.
         """
+        if _verif.ENABLED:
+            return hash((_verif.LEXSALT, item.sort_tuple))
         return hash((__class__, item.sort_tuple))
 
     @staticmethod
